@@ -752,4 +752,107 @@ theorem inv_block {s s' : St} {t : Int} (hI : Inv s) (h : doBlock s t = .ok s') 
       have := hI.cust hc t' l (by show s.now ≤ t'; have : t ≤ t' := ht'; omega) hl
       omega
 
+theorem inv_nvUndelegate {s s' : St} {c sd : Addr} {vo : Bool} {d : Denom} {amt : Int} {e : Ext} (hI : Inv s)
+    (ho : extOk e ∧ e.share = amt) (h : doNvUndelegate s c sd vo d amt e = .ok s') : Inv s' := by
+  simp only [doNvUndelegate] at h
+  split at h; · simp at h
+  rename_i hcv
+  split at h; · simp at h
+  split at h; · simp at h
+  split at h; · simp at h
+  rename_i hpos
+  split at h; · simp at h
+  split at h; · simp at h
+  obtain ⟨b1, hb1, h⟩ := Bank.bind_ok h
+  obtain ⟨b2, hb2, h⟩ := Bank.bind_ok h
+  obtain ⟨_, hle, eb1⟩ := Bank.send_ok hb1
+  obtain ⟨_, _, eb2⟩ := Bank.burn_ok hb2
+  simp only [Res.ok.injEq] at h
+  subst h eb2 eb1
+  obtain ⟨⟨hrf, hrb⟩, hsh⟩ := ho
+  have hv : s.variant = .nv := by
+    simp only [Bool.or_eq_true, Bool.not_eq_true', decide_eq_true_eq, not_or] at hcv
+    have := hcv.2; simpa using this
+  rw [claim_bal] at hle
+  simp [fee, bond, shareD, lock] at hle
+  -- the three tracked balances after the handler
+  have fL : (((claim s.bank lock e).credit lock shareD (-e.share)).credit scMod shareD e.share |>.credit scMod shareD (-e.share) |>.addSupply shareD (-e.share)).bal lock fee
+      = s.bank.bal lock fee + e.rewFee := by
+    simp [Bank.credit_bal, claim_bal, fee, bond, shareD, lock, scMod]
+  have fS : (((claim s.bank lock e).credit lock shareD (-e.share)).credit scMod shareD e.share |>.credit scMod shareD (-e.share) |>.addSupply shareD (-e.share)).bal lock shareD
+      = s.bank.bal lock shareD - e.share := by
+    simp [Bank.credit_bal, claim_bal, fee, bond, shareD, lock, scMod]; omega
+  have fP : (((claim s.bank lock e).credit lock shareD (-e.share)).credit scMod shareD e.share |>.credit scMod shareD (-e.share) |>.addSupply shareD (-e.share)).bal "plock" bond
+      = s.bank.bal "plock" bond := by
+    simp [Bank.credit_bal, claim_bal, fee, bond, shareD, lock, scMod]
+  obtain ⟨hd', hhd', hnil, hcons⟩ := head_addEntry s.entries s.height (s.now + s.ut) amt
+  have hamt : 0 < amt := by omega
+  constructor
+  · exact hI.ol0
+  · exact hI.ut0
+  · exact hI.dv0
+  · exact hI.df0
+  · show 0 ≤ Bank.bal _ lock fee
+    rw [fL]; have := hI.bL0; omega
+  · show 0 ≤ Bank.bal _ lock shareD
+    rw [fS]; simp [shareD, lock] at hle ⊢; omega
+  · show 0 ≤ Bank.bal _ "plock" bond
+    rw [fP]; exact hI.bP0
+  · exact hI.st0
+  · exact hI.ubd0
+  · intro u hu
+    simp only [List.mem_append, List.mem_singleton] at hu
+    rcases hu with hu | hu
+    · exact hI.sc0 u hu
+    · subst hu; exact ⟨by show 0 ≤ amt; omega, rfl⟩
+  · intro hc t l ht hl
+    have := hI.cover hc t l ht hl
+    show l - s.DV ≤ Bank.bal _ lock fee
+    rw [fL]; omega
+  · have := hI.tracked
+    unfold actualDelegated at this ⊢
+    simp only [hv] at this ⊢
+    show s.DV + s.DF ≤ Bank.bal _ lock shareD + sumEntries (addEntry s.entries s.height (s.now + s.ut) amt)
+    rw [fS, sumEntries_addEntry]; omega
+  · intro _ hb
+    have hb2 := (blocked_nv_iff (s := { s with bank := _, scUnb := s.scUnb ++ [⟨lock, amt, s.now + s.ut⟩], entries := addEntry s.entries s.height (s.now + s.ut) amt }) hv).1 hb
+    have hbs : blocked s = false := (blocked_nv_iff hv).2 (fun h0 hh0 => by
+      have := hb2 hd' hhd'
+      have e := hcons h0 hh0
+      have : s.now < hd'.endT := this
+      omega)
+    have := hI.liveNv hv hbs
+    show s.DV + s.DF ≤ Bank.bal _ lock shareD + sumUnb lock (s.scUnb ++ [⟨lock, amt, s.now + s.ut⟩])
+    rw [fS, sumUnb_append]; simp; omega
+  · intro u hu
+    simp only [List.mem_append, List.mem_singleton] at hu
+    refine ⟨hd', hhd', ?_⟩
+    rcases hu with hu | hu
+    · obtain ⟨h0, hh0, hle0⟩ := hI.scHead u hu
+      rw [hcons h0 hh0]; exact hle0
+    · subst hu
+      show hd'.endT ≤ s.now + s.ut
+      cases hes : s.entries with
+      | nil => rw [hnil hes]
+      | cons x r =>
+        have hh0 : s.entries.head? = some x := by simp [hes]
+        rw [hcons x hh0]; exact hI.headUt x hh0
+  · intro h0 hh0
+    have : h0 = hd' := by
+      have : (addEntry s.entries s.height (s.now + s.ut) amt).head? = some h0 := hh0
+      rw [hhd'] at this; exact (Option.some.inj this).symm
+    subst this
+    show h0.endT ≤ s.now + s.ut
+    cases hes : s.entries with
+    | nil => rw [hnil hes]
+    | cons x r =>
+      have hx : s.entries.head? = some x := by simp [hes]
+      rw [hcons x hx]; exact hI.headUt x hx
+  · intro hc t l ht hl
+    have := hI.cust hc t l ht hl
+    unfold custody at this ⊢
+    simp only [hv] at this ⊢
+    show l ≤ Bank.bal _ lock fee + Bank.bal _ lock shareD + sumUnb lock (s.scUnb ++ [⟨lock, amt, s.now + s.ut⟩])
+    rw [fL, fS, sumUnb_append]; simp; omega
+
 end Sunrise.C12
